@@ -1681,6 +1681,32 @@ BUDGET = {"defaults": (15, 100), "kwhist": (8, 60), "cg": (120, 1500), "jaxcg": 
           "bisect": (60, 700), "golden": (50, 600)}
 
 
+
+def default_precision_stream(ctx):
+    """round 6: the library's DEFAULT mode (no jax_enable_x64; float32 / complex64 data, Python scalars weakly typed): a worker
+    subprocess (harness/linsolve_f32_worker.py) runs the solvers of this property; nothing may raise, results stay 32-bit of the kind of
+    the data, the documented system (numpy float64 in the worker) holds at a float32-appropriate relative residual, reported
+    accuracy / rel_res is consistent with the true one"""
+    import subprocess
+    import sys
+
+    p = subprocess.run([sys.executable, str(common.VERIF / "harness" / "linsolve_f32_worker.py")],
+                       input=json.dumps({"repo": str(common.REPO), "which": "c14", "seed": ctx.seed}), capture_output=True, text=True,
+                       env={k_: v for k_, v in os.environ.items() if k_ != "JAX_ENABLE_X64"})
+    if p.returncode != 0:
+        raise common.Infra("default-precision worker failed: " + p.stderr[-800:])
+    txt = p.stdout
+    for rec in json.loads(txt[txt.index('{"results"'):])["results"]:
+        ctx.case({"default_precision": rec["name"], "dtype": rec["dtype"]}, "f32:" + rec["name"] + ":" + rec["dtype"])
+        ctx.count("default-precision:" + rec["dtype"])
+        bad = rec.get("raised") or not rec.get("dtype_ok") or not rec.get("value_ok") or rec.get("reported_ok") is False
+        if bad:
+            ctx.disagree("linsolve.default_precision." + rec["name"], {"kind": "default_precision", "item": rec["name"], "dtype": rec["dtype"], "seed": ctx.seed},
+                         {k_: v for k_, v in rec.items() if k_ not in ("name", "dtype")},
+                         "no exception, 32-bit result of the kind of the data, documented system within the float32 tolerance, consistent accuracy",
+                         oracle=lambda case, rec=rec: dict(rec, mode="float32/complex64 (jax_enable_x64 off)"))
+
+
 def correspond(ctx, model):
     _setup()
     cdir = common.CORPUS_DIR / PROP
@@ -1691,6 +1717,8 @@ def correspond(ctx, model):
             ctx.count("corpus")
             RUNNERS[case["kind"]](ctx, model, case)
     only = os.environ.get("LINSOLVE_STREAMS")  # debugging aid (mutation trials): restrict the streams
+    if not only or "f32" in only.split(","):
+        default_precision_stream(ctx)
     for kind, gen in GENS.items():
         if only and kind not in only.split(","):
             continue
